@@ -11,6 +11,7 @@ from ..terms import (Const, Sym, Op, Ite, Ref, TRUE, FALSE, NONE, is_int, is_con
                      and_, or_, not_, binop, subst, evaluate, CannotEval)
 from .. import pelx
 from ..pelx import equivalent, env_str, table_of, list_items
+from ..pelx import implies
 from ..cli import Cli, PT, ARGS
 from .c02 import spec_table
 
@@ -134,7 +135,7 @@ def check_severity_match(rep, prog):
     loops = list(I.loops.values())
     cond = None
     if isinstance(r, Op) and r.op == "exists" and len(loops) == 1 and loops[0].iter == sevs and r.args[0] == Const(loops[0].lid) \
-            and not loops[0].stops:
+            and all(implies(s_, r.args[1])[0] for s_ in loops[0].stops):     # (a lazy any() ends at the first match)
         # any(<test> for g in config.severities)
         cond = r.args[1]
         el = Op("elem", sevs, loops[0].idx)
